@@ -928,6 +928,10 @@ class SetIndex(BaseSetIndexSortValues):
             return self._filter_simplification(parent)
 
     def _filter_passthrough_available(self, parent, dependents):
+        if "_other" in self._parameters and isinstance(self._other, Expr):
+            # The new index is a separate series: filtering the frame alone
+            # would leave the two with different rows
+            return False
         if is_filter_pushdown_available(self, parent, dependents):
             from dask_expr._expr import Index
 
